@@ -1,0 +1,38 @@
+//go:build verif
+// +build verif
+
+// Read-only accessors used only by the external verification harness (build
+// tag "verif"). Without the tag this file is not compiled.
+
+package index
+
+// VerifEpoch returns the epoch of this snapshot.
+func (i *Snapshot) VerifEpoch() uint64 {
+	return i.epoch
+}
+
+// VerifSegmentInfo describes one segment of a snapshot.
+type VerifSegmentInfo struct {
+	ID        uint64
+	Persisted bool
+	Full      uint64
+	Deleted   uint64
+	Creator   string
+}
+
+// VerifSegmentInfos lists the segments of this snapshot in order.
+func (i *Snapshot) VerifSegmentInfos() []VerifSegmentInfo {
+	rv := make([]VerifSegmentInfo, 0, len(i.segment))
+	for _, s := range i.segment {
+		info := VerifSegmentInfo{ID: s.id, Creator: s.creator}
+		if s.segment != nil {
+			info.Persisted = s.segment.Persisted()
+			info.Full = s.segment.Count()
+		}
+		if s.deleted != nil {
+			info.Deleted = s.deleted.GetCardinality()
+		}
+		rv = append(rv, info)
+	}
+	return rv
+}
